@@ -107,10 +107,15 @@ theorem code_ok (cfg : Cfg) (op : Op) (hk : Bool) : Sim cfg (code cfg op) ⟨[],
     obtain ⟨kind, w, h, rec, tr⟩ := cfg
     cases r <;> cases kind <;> cases rec <;> cases hk <;>
       simp [code, printBody, hookCode, frameCode, flushCode, refreshCode, ga, gh, Sim, guardOn, absAct, Lock.rank, Abs.final]
-  | _ =>
+  | stop =>
     obtain ⟨kind, w, h, rec, tr⟩ := cfg
     cases kind <;> cases rec <;> cases tr <;> cases hk <;>
-      simp [code, printBody, hookCode, frameCode, flushCode, refreshCode, startCode, stopCode, ctlCode, ga, gh, Sim, guardOn,
+      simp [code, printBody, hookCode, frameCode, flushCode, refreshCode, stopCode, ctlCode, ga, gh, Sim, guardOn,
+        absAct, Lock.rank, Abs.final]
+  | _ =>
+    obtain ⟨kind, w, h, rec, tr⟩ := cfg
+    cases kind <;> cases rec <;> cases hk <;>
+      simp [code, printBody, hookCode, frameCode, flushCode, refreshCode, startCode, ctlCode, nestedCode, ga, gh, Sim, guardOn,
         absAct, Lock.rank, Abs.final]
 
 end RichModel.Conc
